@@ -745,7 +745,8 @@ pub fn suite_w(out: &mut Out, seed: u64, thorough: bool, filter: &[String], wide
 				6 if wide => 1000usize.min(max as usize - 1),
 				_ => 1 + r.below(40) as usize,
 			};
-			let kind = r.below(6);
+			// every kind of kernel in every run (kind 3: weights of either sign)
+			let kind = (j as u64) % 6;
 			let mut w: Vec<f64> = (0..len)
 				.map(|i| match kind {
 					0 => 1.0,
